@@ -351,13 +351,13 @@ def reference_from_store(d):
     return ref
 
 
-def restart_and_compare(h):
+def restart_and_compare(h, ref=None, old=None):
     """Child body: new master, load_model() only, compare with the store."""
     d = h.d
     d.srv.before_write = None
     out = {'violations': [], 'healthy_entries': 0, 'unhealthy': {}, 'flags': {}}
-    ref = reference_from_store(d)
-    old = d.snapshot_model()
+    ref = ref if ref is not None else reference_from_store(d)
+    old = old if old is not None else d.snapshot_model()
     if d.mclient is not None:
         d.mclient.dead = True
     d.mclient = d.srv.client('master-c11')
